@@ -398,6 +398,13 @@ Theorem C11_feature_type : forall d ftype a f, feature_of_attrs d ftype a = Ok f
 Proof. exact feature_type. Qed.
 Print Assumptions C11_feature_type.
 
+(* every column of the header list is a key of the format metadata, with the typed value of some token of the row,
+   whatever the tokens are: an empty field between two separators is the empty string and is kept (round 5) *)
+Theorem C11_row_keys : forall d ftype hs toks f, nodup_str (map hname hs) = true -> row_feature d ftype hs toks = Ok f ->
+  forall hd, In hd hs -> exists v, In v toks /\ assoc (hname hd) (f_fmt f) = Some (conv (htype hd) v).
+Proof. exact row_keys. Qed.
+Print Assumptions C11_row_keys.
+
 (* non-vacuity: one minus-strand hit (subject 20..10, query 5..6, e-value 1e-5, bit score 50) as a BLAST outfmt 6 line,
    an MMseqs2 fmtmode 4 file and an Infernal fmt 1 file; all three are inside the domain and read, through the whole
    text-level model, to the interval [9, 20) on the minus strand with the same common metadata *)
@@ -483,3 +490,14 @@ Example C11_witness_sep_none :
   forallb (fun p => strs_eqb (wsrow_toks (mk_wsrow p)) p) ex_blast_rows = true /\
   forallb (wsrow_simple_ok Mmseqs) (map mk_wsrow ex_mm_rows) = true.
 Proof. exact witness_sep_none. Qed.
+
+(* the blank-title witness: a row with an empty third field is a renderable row (C11_read_rendered_rows applies) and its
+   feature keeps the key stitle with the empty string among its nine columns *)
+Example C11_witness_blank_field :
+  row_ok Blast x09 ex_blank_row = true /\
+  match row_feature Blast None ex_blank_hs ex_blank_row with
+  | Ok f => assoc (bs "stitle"%bs) (f_fmt f) = Some (AStr []) /\ length (f_fmt f) = 9%nat /\
+            (f_start f, f_stop f, f_strand f) = (1999%Z, 2075%Z, bs "-"%bs)
+  | Err _ => False
+  end.
+Proof. exact witness_blank_field. Qed.
